@@ -215,6 +215,12 @@ class DataflowRules:
             if o[0] == "glob":
                 self.add("GLOBAL/write", False, fr, node, txt, f"{how} writes the module-level object {o[1]} in place", target=o[1])
         is_container = base.kind in ("ds", "da", "dict", "dictmethod") or container
+        # in-place arithmetic on the buffer of a variable stored in Grid._ds (reached through .values/.data of a grid property):
+        # a read-only derivation then changes what the grid reports for the variable it read
+        if how.startswith("augmented") and base.kind in ("nd", None) and any(o[0] == "grid_ds" for o in org) and base.vars:
+            self.add("GRIDBUF/write", False, fr, node, txt,
+                     f"{how} modifies in place the stored grid variable(s) {sorted(base.vars)} (the array is the buffer of Grid._ds, not a copy): deriving one quantity changes another",
+                     vars=sorted(base.vars))
         for o in org:
             if o[0] == "param" or (o[0] == "parambuf" and not is_container):
                 self.add("ALIAS/param-write", False, fr, node, txt, f"{how} writes into an object owned by the caller (parameter '{o[1]}' of {self.entry.qualname if self.entry else '?'})",
